@@ -255,3 +255,20 @@ M('C05', 'sent-event-wrong-amount', ITS, '            destination_address: desti
   '            destination_address: destination_address.clone(),\n            amount: 0,\n            data: data.clone(),\n        }\n        .emit(env);\n\n        let message = Message::InterchainTransfer', 'C05.R3')
 M('C05', 'register-then-sweep-custody', ITS, '        Self::set_token_id_config(\n            env,\n            token_id.clone(),\n            TokenIdConfigValue {\n                token_address,\n                token_manager_type: TokenManagerType::LockUnlock,\n            },\n        );',
   '        token::Client::new(env, &token_address).transfer(&env.current_contract_address(), &Self::owner(env), &0);\n        Self::set_token_id_config(\n            env,\n            token_id.clone(),\n            TokenIdConfigValue {\n                token_address,\n                token_manager_type: TokenManagerType::LockUnlock,\n            },\n        );', 'C05.R6')
+
+# ---------------- C11 ----------------
+M('C11', 'register-canonical-overwrites', ITS, '        ensure!(\n            !env.storage()\n                .persistent()\n                .has(&DataKey::TokenIdConfigKey(token_id.clone())),\n            ContractError::TokenAlreadyRegistered\n        );\n', '', 'C11.R3')
+M('C11', 'id-without-chain-name', ITS, '                &(\n                    PREFIX_INTERCHAIN_TOKEN_SALT,\n                    chain_name_hash,\n                    deployer,\n                    salt,\n                )', '                &(\n                    PREFIX_INTERCHAIN_TOKEN_SALT,\n                    deployer,\n                    salt,\n                )', 'C11.R1')
+M('C11', 'salt-prefix-collision', ITS, 'const PREFIX_CANONICAL_TOKEN_SALT: &str = "canonical-token-salt";', 'const PREFIX_CANONICAL_TOKEN_SALT: &str = "interchain-token-salt";', 'C11.R1')
+M('C11', 'id-depends-on-ledger', ITS, '            .keccak256(&(PREFIX_INTERCHAIN_TOKEN_ID, sender, salt).to_xdr(env))', '            .keccak256(&(PREFIX_INTERCHAIN_TOKEN_ID, sender, salt, env.ledger().sequence()).to_xdr(env))', 'C11.R1')
+M('C11', 'deploy-salt-not-id', ITS, '            .with_address(env.current_contract_address(), token_id.clone())', '            .with_address(env.current_contract_address(), Self::chain_name_hash(env))', 'C11')
+M('C11', 'remote-deploy-overwrites-via-config-only', ITS, '                let deployed_address = Self::deploy_interchain_token_contract(\n                    env,\n                    minter,\n                    token_id.clone(),\n                    token_metadata,\n                );\n\n                Self::set_token_id_config(\n                    env,\n                    token_id,',
+  '                let deployed_address = Self::deploy_interchain_token_contract(\n                    env,\n                    minter,\n                    token_id.clone(),\n                    token_metadata,\n                );\n\n                Self::set_token_id_config(\n                    env,\n                    BytesN::from_array(env, &[0; 32]),', 'C11.R3')
+M('C11', 'deployer-salt-not-bound-to-caller', ITS, '        let deploy_salt = Self::interchain_token_deploy_salt(env, caller.clone(), salt);\n        let token_id = Self::interchain_token_id(env, Address::zero(env), deploy_salt);\n\n        let deployed_address',
+  '        let deploy_salt = Self::interchain_token_deploy_salt(env, Address::zero(env), salt);\n        let token_id = Self::interchain_token_id(env, Address::zero(env), deploy_salt);\n\n        let deployed_address', 'C11.R1')
+M('C11', 'initial-supply-to-service', ITS, '            StellarAssetClient::new(env, &deployed_address).mint(&caller, &initial_supply);', '            StellarAssetClient::new(env, &deployed_address).mint(&env.current_contract_address(), &initial_supply);', 'C11.R6')
+M('C11', 'token-ctor-owner-not-minter', TOK, '        env.storage().instance().set(&DataKey::Minter(owner), &());\n', '        let _ = owner;\n', 'C11.R4')
+M('C11', 'token-ctor-wrong-token-id-slot', TOK, '        env.storage().instance().set(&DataKey::TokenId, &token_id);', '        env.storage().instance().set(&DataKey::TokenId, &BytesN::<32>::from_array(&env, &[0; 32]));\n        let _ = token_id;', 'C11.R4')
+M('C11', 'token-ctor-skips-metadata-validation', TOK, '        if let Err(err) = validate_token_metadata(&token_metadata) {\n            panic_with_error!(env, err);\n        }\n', '', 'C11.R4')
+M('C11', 'its-transfers-token-ownership', ITS, '            if let Some(minter) = minter {\n                let token = InterchainTokenClient::new(env, &deployed_address);\n                token.remove_minter(&env.current_contract_address());\n                token.add_minter(&minter);',
+  '            if let Some(minter) = minter {\n                let token = InterchainTokenClient::new(env, &deployed_address);\n                token.remove_minter(&env.current_contract_address());\n                StellarAssetClient::new(env, &deployed_address).set_admin(&minter);\n                token.add_minter(&minter);', 'C11.R5')
